@@ -347,10 +347,24 @@ def classify(component, what, case):
         return "F27"
     if case.get("op") == "api":
         return classify_api(what, case)
+    if case.get("crash") and " lybapi " in (case.get("line") or ""):
+        from checks import lybapi
+        return lybapi.classify_crash(case)
     return None
 
 
 def classify_api(what, case):
+    if case.get("stage") == "length":
+        r = case.get("reply", [])
+        try:
+            delta = int(r[2]) - int(r[3])
+        except (IndexError, ValueError):
+            return None
+        if case.get("spec") == "-" and delta == 2:
+            return "F52"         # empty data tree
+        if case.get("kind") == "big" and delta > 0 and delta % 4 == 0:
+            return "F50"         # trailing meta records of the last chunk not skipped
+        return None
     if case.get("f27") and case.get("stage") == "print" :
         return "F27"
     if case.get("wd") in ("all-tag", "impl-tag") and case.get("has_default") and case.get("stage") in ("parse", "compare", "crash"):
@@ -360,7 +374,7 @@ def classify_api(what, case):
     return None
 
 
-def run_lyb(cx, want=("wb",)):
+def run_lyb(cx, want=("wb", "api")):
     if "wb" in want:
         run_wb(cx)
     if "api" in want:
